@@ -757,6 +757,10 @@ class Inliner:
             if isinstance(n, ast.Call) and n is not target_call:
                 nm = n.func.id if isinstance(n.func, ast.Name) else n.func.attr if isinstance(n.func, ast.Attribute) else None
                 inside = any(x is n for x in ast.walk(target_call))
+                if not inside and n is root and isinstance(st, ast.Expr) and any(a is target_call for a in n.args) and not n.keywords \
+                        and all(a is target_call or isinstance(a, (ast.Name, ast.Constant)) for a in n.args) \
+                        and isinstance(n.func, ast.Attribute) and isinstance(n.func.value, ast.Name):
+                    continue  # `obj.method(helper(..))` as a statement: the helper call is evaluated before anything with an effect happens
                 if not inside and nm not in self.PURE_CALLS:
                     return None
             if isinstance(n, (ast.Await, ast.Yield, ast.YieldFrom, ast.NamedExpr)):
@@ -1052,10 +1056,353 @@ class Inliner:
         walk(fn.body)
         return changed
 
+    def star_tuples(self, f: FunctionInfo) -> bool:
+        """`g(a, *t)` where `t` is bound once, to the result of a package function whose every return is an n-tuple
+        ->  `g(a, t[0], ..., t[n-1])`"""
+        fn = f.node
+        stores: Dict[str, List[ast.AST]] = {}
+        for n in _own_nodes(fn):
+            if isinstance(n, ast.Name) and isinstance(n.ctx, ast.Store):
+                stores.setdefault(n.id, []).append(n)
+        defs: Dict[str, ast.Call] = {}
+        for n in _own_nodes(fn):
+            if isinstance(n, ast.Assign) and len(n.targets) == 1 and isinstance(n.targets[0], ast.Name) and isinstance(n.value, ast.Call) and len(stores.get(n.targets[0].id, [])) == 1 \
+                    and n.targets[0].id not in f.params:
+                defs[n.targets[0].id] = n.value
+
+        def arity(call: ast.Call) -> Optional[int]:
+            g = None
+            if isinstance(call.func, ast.Name):
+                r = self.prog.resolve_name(f.module, call.func.id)
+                g = r if isinstance(r, FunctionInfo) and r.cls is None else None
+            elif isinstance(call.func, ast.Attribute) and isinstance(call.func.value, ast.Name) and f.cls is not None and f.params and call.func.value.id == f.params[0]:
+                g = self.prog.find_method(f.cls, call.func.attr)
+            if g is None or any(isinstance(x, (ast.Yield, ast.YieldFrom)) for x in _own_nodes(g.node)):
+                return None
+            rets = [x for x in _own_nodes(g.node) if isinstance(x, ast.Return)]
+            if not rets or _may_fall_through(list(g.node.body)):
+                return None
+            ns = {len(x.value.elts) if isinstance(x.value, ast.Tuple) and not any(isinstance(e, ast.Starred) for e in x.value.elts) else None for x in rets}
+            return ns.pop() if len(ns) == 1 and None not in ns else None
+
+        changed = False
+        for n in list(_own_nodes(fn)):
+            if isinstance(n, ast.Call) and any(isinstance(a, ast.Starred) and isinstance(a.value, ast.Name) and a.value.id in defs for a in n.args):
+                new_args: List[ast.AST] = []
+                for a in n.args:
+                    k = arity(defs[a.value.id]) if isinstance(a, ast.Starred) and isinstance(a.value, ast.Name) and a.value.id in defs else None
+                    if k is None:
+                        new_args.append(a)
+                        continue
+                    for i in range(k):
+                        new_args.append(ast.copy_location(ast.Subscript(value=ast.Name(id=a.value.id, ctx=ast.Load()), slice=ast.Constant(value=i), ctx=ast.Load()), a))
+                    changed = True
+                    self.log.append(f"{f.qualname}: `*{a.value.id}` written out as its {k} elements at line {getattr(n, 'lineno', '?')}")
+                n.args = new_args
+                ast.fix_missing_locations(n)
+        return changed
+
+    def formats_to_fstrings(self, f: FunctionInfo) -> bool:
+        """`TEMPLATE.format(a, b)` with a constant template (literal or module-level constant)  ->  the equivalent f-string"""
+        from .engine import format_call_to_joinedstr
+
+        changed = False
+        prog, module, log, qn = self.prog, f.module, self.log, f.qualname
+
+        class R(ast.NodeTransformer):
+            def visit_FunctionDef(self, n):
+                return n if n is not f.node else self.generic_visit(n)
+
+            visit_AsyncFunctionDef = visit_FunctionDef
+
+            def visit_Lambda(self, n):
+                return n
+
+            def visit_Call(self, n):
+                nonlocal changed
+                self.generic_visit(n)
+                if isinstance(n.func, ast.Attribute) and n.func.attr == "format":
+                    js = format_call_to_joinedstr(prog, module, n)
+                    if js is not None:
+                        changed = True
+                        log.append(f"{qn}: `{ast.unparse(n.func.value)[:30]}.format(..)` read as an f-string at line {getattr(n, 'lineno', '?')}")
+                        ast.fix_missing_locations(js)
+                        return js
+                return n
+
+        R().visit(f.node)
+        return changed
+
+    def concats_to_fstrings(self, f: FunctionInfo) -> bool:
+        """`"C;" + line` / `"\n" + f"{label}" + "\n"`: a concatenation of a string literal with a value that can only be a str (the
+        result of a str method / str() / an f-string, directly or through a single-definition local)  ->  the equivalent
+        f-string with that operand as a hole. Anything else is left alone: `literal + None` raises, an f-string does not."""
+        changed = False
+        log, qn = self.log, f.qualname
+
+        def strish(e):
+            return (isinstance(e, ast.Constant) and isinstance(e.value, str)) or isinstance(e, ast.JoinedStr)
+
+        stores: Dict[str, List[ast.AST]] = {}
+        parent_of: Dict[int, ast.AST] = {}
+        for p_ in ast.walk(f.node):
+            for ch in ast.iter_child_nodes(p_):
+                parent_of[id(ch)] = p_
+        comp_scoped: Set[int] = set()  # targets of comprehensions live in their own scope
+        for n_ in _own_nodes(f.node):
+            if isinstance(n_, ast.comprehension):
+                comp_scoped |= {id(x) for x in ast.walk(n_.target)}
+        for n_ in _own_nodes(f.node):
+            if isinstance(n_, ast.Name) and isinstance(n_.ctx, ast.Store) and id(n_) not in comp_scoped:
+                stores.setdefault(n_.id, []).append(n_)
+        STR_METHODS = {"strip", "lstrip", "rstrip", "upper", "lower", "format", "join", "replace", "ljust", "rjust", "zfill", "title", "capitalize", "center"}
+
+        def is_str(e, depth=0) -> bool:
+            """the value can only be a str (so that `literal + e` cannot raise TypeError and equals the f-string)"""
+            if depth > 4:
+                return False
+            if strish(e):
+                return True
+            if isinstance(e, ast.Call) and isinstance(e.func, ast.Attribute) and e.func.attr in STR_METHODS:
+                return True
+            if isinstance(e, ast.Call) and isinstance(e.func, ast.Name) and e.func.id in ("str", "repr", "chr", "hex", "format"):
+                return True
+            if isinstance(e, ast.BinOp) and isinstance(e.op, ast.Add):
+                return is_str(e.left, depth + 1) or is_str(e.right, depth + 1)
+            if isinstance(e, ast.Name) and e.id not in f.params and len(stores.get(e.id, [])) == 1:
+                st_ = parent_of.get(id(stores[e.id][0]))
+                if isinstance(st_, ast.Assign) and len(st_.targets) == 1 and st_.targets[0] is stores[e.id][0]:
+                    return is_str(st_.value, depth + 1)
+                if isinstance(st_, (ast.For, ast.comprehension)) and st_.target is stores[e.id][0]:
+                    it = st_.iter
+                    if isinstance(it, ast.Name) and it.id not in f.params and len(stores.get(it.id, [])) == 1:
+                        d_ = parent_of.get(id(stores[it.id][0]))
+                        it = d_.value if isinstance(d_, ast.Assign) and len(d_.targets) == 1 and d_.targets[0] is stores[it.id][0] else it
+                    if isinstance(it, ast.ListComp):
+                        return is_str(it.elt, depth + 1)
+                    if isinstance(it, ast.Call) and isinstance(it.func, ast.Attribute) and it.func.attr in ("split", "splitlines", "rsplit"):
+                        return True
+            return False
+
+        def parts(e):
+            if isinstance(e, ast.Constant):
+                return [e] if e.value else []
+            if isinstance(e, ast.JoinedStr):
+                return list(e.values)
+            return [ast.FormattedValue(value=e, conversion=-1, format_spec=None)]
+
+        class R(ast.NodeTransformer):
+            def visit_FunctionDef(self, n):
+                return n if n is not f.node else self.generic_visit(n)
+
+            visit_AsyncFunctionDef = visit_FunctionDef
+
+            def visit_Lambda(self, n):
+                return n
+
+            def visit_BinOp(self, n):
+                nonlocal changed
+                self.generic_visit(n)
+                if isinstance(n.op, ast.Add) and (strish(n.left) or strish(n.right)) and not (isinstance(n.left, ast.Constant) and isinstance(n.right, ast.Constant)):
+                    other = n.right if strish(n.left) else n.left
+                    if is_str(other):
+                        js = ast.JoinedStr(values=parts(n.left) + parts(n.right))
+                        changed = True
+                        log.append(f"{qn}: string concatenation read as an f-string at line {getattr(n, 'lineno', '?')}")
+                        return ast.fix_missing_locations(ast.copy_location(js, n))
+                return n
+
+        R().visit(f.node)
+        return changed
+
+    def properties_to_exprs(self, f: FunctionInfo) -> bool:
+        """`self.p` where p is a new read-only property of the class (not one the rules know by name) whose body is a single
+        `return <pure expression over self>` and that no subclass overrides  ->  that expression"""
+        if f.cls is None or not f.params:
+            return False
+        selfn = f.params[0]
+        if any(isinstance(d, ast.Name) and d.id == "staticmethod" for d in f.node.decorator_list):
+            return False
+        changed = False
+        prog, known, log, qn = self.prog, self.known, self.log, f.qualname
+
+        def body_expr(m: FunctionInfo) -> Optional[ast.AST]:
+            if not m.is_property or len(m.params) != 1 or len(m.node.decorator_list) != 1:
+                return None
+            body = [s_ for s_ in m.node.body if not (isinstance(s_, ast.Expr) and isinstance(s_.value, ast.Constant))]
+            if len(body) != 1 or not isinstance(body[0], ast.Return) or body[0].value is None:
+                return None
+            e = body[0].value
+            if not all(isinstance(n, (ast.Name, ast.Attribute, ast.Subscript, ast.Constant, ast.BinOp, ast.UnaryOp, ast.Tuple, ast.Load, ast.operator, ast.unaryop, ast.Slice)) for n in ast.walk(e)):
+                return None
+            if any(isinstance(n, ast.Name) and n.id != m.params[0] for n in ast.walk(e)):
+                return None
+            return e
+
+        class R(ast.NodeTransformer):
+            def visit_FunctionDef(self, n):
+                return n if n is not f.node else self.generic_visit(n)
+
+            visit_AsyncFunctionDef = visit_FunctionDef
+
+            def visit_Lambda(self, n):
+                return n
+
+            def visit_Attribute(self, n):
+                nonlocal changed
+                self.generic_visit(n)
+                if isinstance(n.ctx, ast.Load) and isinstance(n.value, ast.Name) and n.value.id == selfn:
+                    m = prog.find_method(f.cls, n.attr)
+                    if m is not None and m is not f and m.short not in known and m.name not in {k.split(".")[-1] for k in known}:
+                        overridden = any(isinstance(c, ClassInfo) and c is not m.cls and n.attr in c.methods and m.cls in prog.mro(c) for mod in prog.modules.values() for c in mod.classes.values())
+                        e = body_expr(m) if not overridden else None
+                        if e is not None:
+                            changed = True
+                            log.append(f"{qn}: property `{n.attr}` read as `{ast.unparse(e)[:40]}` at line {getattr(n, 'lineno', '?')}")
+                            new = _Rename({m.params[0]: ast.Name(id=selfn, ctx=ast.Load())}).visit(copy.deepcopy(e))
+                            return ast.fix_missing_locations(ast.copy_location(new, n))
+                return n
+
+        for st in f.node.body:
+            R().visit(st)
+        return changed
+
+    def consts_to_literals(self, f: FunctionInfo) -> bool:
+        """A module-level name bound once to a string / number literal (also one imported from another module of the package)
+        and not re-bound in the function  ->  the literal"""
+        table: Dict[str, ast.Constant] = {}
+        for name, v in f.module.assigns.items():
+            if isinstance(v, ast.Constant) and isinstance(v.value, (str, int, float)) and not isinstance(v.value, bool):
+                table[name] = v
+        for local_, dotted in f.module.imports.items():
+            modn, _, attr_ = dotted.rpartition(".")
+            om = self.prog.modules.get(modn)
+            v = om.assigns.get(attr_) if om is not None else None
+            if isinstance(v, ast.Constant) and isinstance(v.value, (str, int, float)) and not isinstance(v.value, bool) and local_ not in f.module.assigns:
+                table[local_] = v
+        if not table:
+            return False
+        bound = set(f.params)
+        for n in ast.walk(f.node):
+            if isinstance(n, ast.Name) and isinstance(n.ctx, (ast.Store, ast.Del)):
+                bound.add(n.id)
+            elif isinstance(n, (ast.Global, ast.Nonlocal)):
+                bound |= set(n.names)
+            elif isinstance(n, ast.arg):
+                bound.add(n.arg)
+        # names re-bound anywhere in the module (functions using `global`, repeated top-level assignment) keep their name
+        counts: Dict[str, int] = {}
+        for n in ast.walk(f.module.tree):
+            if isinstance(n, ast.Global):
+                for g_ in n.names:
+                    counts[g_] = counts.get(g_, 0) + 2
+        for st in f.module.tree.body:
+            for t in (st.targets if isinstance(st, ast.Assign) else [st.target] if isinstance(st, (ast.AnnAssign, ast.AugAssign)) else []):
+                if isinstance(t, ast.Name):
+                    counts[t.id] = counts.get(t.id, 0) + 1
+        changed = False
+
+        class R(ast.NodeTransformer):
+            def visit_Name(self, n):
+                nonlocal changed
+                if isinstance(n.ctx, ast.Load) and n.id in table and n.id not in bound and counts.get(n.id, 1) <= 1:
+                    changed = True
+                    return ast.copy_location(ast.Constant(value=table[n.id].value), n)
+                return n
+
+        for st in f.node.body:
+            R().visit(st)
+        for i, d in enumerate(f.node.args.defaults):
+            f.node.args.defaults[i] = R().visit(d)
+        for i, d in enumerate(f.node.args.kw_defaults):
+            if d is not None:
+                f.node.args.kw_defaults[i] = R().visit(d)
+        return changed
+
+    def loops_to_dictcomp(self, f: FunctionInfo) -> bool:
+        """`d = {}` directly followed by `for T in IT: [local = pure expr]* [if COND:] d[K] = V`  ->  `d = {K: V for T in IT if COND}`
+        (the locals of the loop body are substituted; they and the loop targets must not be read after the loop)"""
+        fn = f.node
+        changed = False
+
+        def pure(e: ast.AST) -> bool:
+            return all(isinstance(n, (ast.Name, ast.Attribute, ast.Subscript, ast.Constant, ast.Tuple, ast.BinOp, ast.UnaryOp, ast.Compare, ast.BoolOp, ast.Load,
+                                      ast.operator, ast.unaryop, ast.cmpop, ast.boolop, ast.JoinedStr, ast.FormattedValue, ast.Slice)) for n in ast.walk(e))
+
+        def loads_outside(names: Set[str], loop: ast.For) -> bool:
+            inside = {id(n) for n in ast.walk(loop)}
+            # reads inside another loop that binds the name itself as its target see that loop's values
+            rebound: Set[int] = set()
+            for other in _own_nodes(fn):
+                if isinstance(other, ast.For) and other is not loop and id(other) not in inside:
+                    tn = {x.id for x in ast.walk(other.target) if isinstance(x, ast.Name)}
+                    for st_ in other.body:
+                        for x in ast.walk(st_):
+                            if isinstance(x, ast.Name) and x.id in tn:
+                                rebound.add(id(x))
+            return any(isinstance(n, ast.Name) and isinstance(n.ctx, ast.Load) and n.id in names and id(n) not in inside and id(n) not in rebound for n in _own_nodes(fn))
+
+        def walk(stmts: List[ast.stmt]) -> None:
+            nonlocal changed
+            i = 0
+            while i < len(stmts):
+                st = stmts[i]
+                nxt = stmts[i + 1] if i + 1 < len(stmts) else None
+                tgt = st.targets[0] if isinstance(st, ast.Assign) and len(st.targets) == 1 else st.target if isinstance(st, ast.AnnAssign) and st.value is not None else None
+                val = getattr(st, "value", None)
+                empty = isinstance(val, ast.Dict) and not val.keys or (isinstance(val, ast.Call) and isinstance(val.func, ast.Name) and val.func.id == "dict" and not val.args and not val.keywords)
+                if isinstance(tgt, ast.Name) and empty and isinstance(nxt, ast.For) and not nxt.orelse and nxt.body:
+                    d = tgt.id
+                    body = list(nxt.body)
+                    subst: Dict[str, ast.AST] = {}
+                    ok = True
+                    while body and isinstance(body[0], ast.Assign) and len(body[0].targets) == 1 and isinstance(body[0].targets[0], ast.Name) and len(body) > 1:
+                        v = _Rename(dict(subst)).visit(copy.deepcopy(body[0].value))
+                        if not pure(v) or body[0].targets[0].id == d:
+                            ok = False
+                            break
+                        subst[body[0].targets[0].id] = v
+                        body = body[1:]
+                    cond = None
+                    if ok and len(body) == 1 and isinstance(body[0], ast.If) and not body[0].orelse and len(body[0].body) == 1:
+                        cond = body[0].test
+                        body = body[0].body
+                    store = body[0] if ok and len(body) == 1 else None
+                    if isinstance(store, ast.Assign) and len(store.targets) == 1 and isinstance(store.targets[0], ast.Subscript) and isinstance(store.targets[0].value, ast.Name) \
+                            and store.targets[0].value.id == d:
+                        K, V = store.targets[0].slice, store.value
+                        parts = [x for x in (cond, K, V, nxt.iter) if x is not None]
+                        tnames = {n.id for n in ast.walk(nxt.target) if isinstance(n, ast.Name)}
+                        uses_d = any(isinstance(n, ast.Name) and n.id == d for x in parts for n in ast.walk(x)) or any(
+                            isinstance(n, ast.Name) and n.id == d for v in subst.values() for n in ast.walk(v))
+                        if not uses_d and (cond is None or pure(cond)) and not loads_outside(set(subst) | tnames, nxt) and not (set(subst) & tnames):
+                            ren = _Rename(dict(subst))
+                            comp = ast.DictComp(key=ren.visit(copy.deepcopy(K)), value=ren.visit(copy.deepcopy(V)),
+                                                generators=[ast.comprehension(target=copy.deepcopy(nxt.target), iter=copy.deepcopy(nxt.iter),
+                                                                              ifs=[ren.visit(copy.deepcopy(cond))] if cond is not None else [], is_async=0)])
+                            new = ast.Assign(targets=[ast.Name(id=d, ctx=ast.Store())], value=comp)
+                            ast.copy_location(new, nxt)
+                            ast.fix_missing_locations(new)
+                            stmts[i:i + 2] = [new]
+                            changed = True
+                            self.log.append(f"{f.qualname}: loop filling `{d}` read as a dict comprehension")
+                            continue
+                for fld in ("body", "orelse", "finalbody"):
+                    sub = getattr(st, fld, None)
+                    if isinstance(sub, list) and sub and isinstance(sub[0], ast.stmt) and not isinstance(st, (ast.FunctionDef, ast.AsyncFunctionDef, ast.ClassDef)):
+                        walk(sub)
+                for h in getattr(st, "handlers", []) or []:
+                    walk(h.body)
+                i += 1
+
+        walk(fn.body)
+        return changed
+
     def run(self) -> None:
         funcs = list(self.prog.all_functions(include_inlined=True))
         for f in funcs:
             self.sorts_to_sorted(f)
+            self.consts_to_literals(f)
         for _round in range(MAX_ROUNDS):
             changed = False
             for f in funcs:
@@ -1063,6 +1410,12 @@ class Inliner:
                 changed |= self.expand_block(f, f.node.body)
                 changed |= self.expand_predicates(f)
                 changed |= self.joins_to_fstrings(f)
+                changed |= self.loops_to_dictcomp(f)
+                changed |= self.star_tuples(f)
+                changed |= self.formats_to_fstrings(f)
+                changed |= self.concats_to_fstrings(f)
+                changed |= self.consts_to_literals(f)
+                changed |= self.properties_to_exprs(f)
             if not changed:
                 break
         # helpers that are no longer called anywhere are accounted for in their callers
